@@ -191,6 +191,16 @@ def h_frame(ctx, rule, kind, iz, fecf, ocf, vcf, n, twin=False):
     if e is not None:
         ctx.fail("unpack with the matching managed parameters raised", exc_name(e))
         return
+    if not iz or not fecf:
+        # an absent insert zone / FECF stays absent whatever size is quoted for it
+        if kind == "fixed":
+            p2 = FixedFrameProperties(info["total"], bool(iz), bool(fecf), iz if iz else 3, fecf if fecf else 2)
+        else:
+            p2 = VarFrameProperties(bool(iz), bool(fecf), info["total"] if kind == "truncated" else 0, iz if iz else 3, fecf if fecf else 2)
+        e2, u2 = call(TransferFrame.unpack, raw, ftype, p2)
+        ctx.holds("absent insert zone / FECF ignored even if a size is quoted", e2 is None and sym_and(
+            u2.tfdf.tfdz == info["tfdz"], not u2.insert_zone if not iz else (u2.insert_zone == info["iz"]),
+            not u2.fecf if not fecf else (u2.fecf == info["fecf"]), u2.len() == len(raw)), exc_name(e2))
     h = info["h"]
     if kind == "truncated":
         hdr_ok = sym_and(u.header.truncated() == True, u.header.scid == h["scid"], u.header.src_dest == h["sd"],  # noqa: E712
